@@ -14,12 +14,22 @@ SpecV(e) ==
   ELSE IF \E k \in DOMAIN e.pts : e.pts[k].i # PtIdx(g, e.pts[k].p[1], e.pts[k].p[2]) THEN "drift:point_lookup_differs_from_model"
   ELSE "ok"
 Returned(e) == {e.out[k] : k \in DOMAIN e.out}
+RectsMeet(a, b) == a[1] <= b[3] /\ b[1] <= a[3] /\ a[2] <= b[4] /\ b[2] <= a[4]        \* closed rectangles intersect (touching counts)
 BBoxV(e) ==
-  LET F == FootTab(e.foot) got == Returned(e) IN
+  LET F == FootTab(e.foot) got == Returned(e)
+      \* a box grown by 1.5e-8 on every side overlaps exactly the tiles the given (lattice) box meets
+      Hit(i) == IF e.c.grow > 0 THEN RectsMeet(F[i], e.c.q) ELSE RectsOverlap(F[i], e.c.q) IN
   IF Len(e.out) # Cardinality(got) THEN "reject:tile_returned_twice"
   ELSE IF ~(got \subseteq DOMAIN F) THEN "reject:harness_window_too_small"
-  ELSE IF \E i \in DOMAIN F : RectsOverlap(F[i], e.c.q) /\ i \notin got THEN "reject:overlapping_tile_not_returned"
-  ELSE IF \E i \in got : ~RectsOverlap(F[i], e.c.q) THEN "reject:returned_tile_does_not_overlap_the_query"
+  ELSE IF \E i \in DOMAIN F : Hit(i) /\ i \notin got THEN "reject:overlapping_tile_not_returned"
+  ELSE IF \E i \in got : ~Hit(i) THEN "reject:returned_tile_does_not_overlap_the_query"
+  ELSE "ok"
+MPolyV(e) ==
+  LET F == FootTab(e.foot) got == Returned(e) P(i) == RectPoly(F[i][1], F[i][2], F[i][3], F[i][4]) IN
+  IF Len(e.out) # Cardinality(got) THEN "reject:tile_returned_twice"
+  ELSE IF ~(got \subseteq DOMAIN F) THEN "reject:harness_window_too_small"
+  ELSE IF \E i \in DOMAIN F : (\E k \in DOMAIN e.c.q : InteriorOverlap(P(i), e.c.q[k])) /\ i \notin got THEN "reject:overlapping_tile_not_returned"
+  ELSE IF \E i \in got : \A k \in DOMAIN e.c.q : StrictlyDisjoint(P(i), e.c.q[k]) THEN "reject:returned_tile_is_disjoint_from_the_query"
   ELSE "ok"
 PolyV(e) ==
   LET F == FootTab(e.foot) got == Returned(e) P(i) == RectPoly(F[i][1], F[i][2], F[i][3], F[i][4]) IN
@@ -37,7 +47,7 @@ WebV(e) == IF \E k \in DOMAIN e.tiles : LET t == e.tiles[k] IN ~(t[3] = t[1] /\ 
            ELSE IF e.corners # <<0, 0, P2(e.c.z) - 1, P2(e.c.z) - 1>> THEN "reject:not_2^z_tiles_per_side"
            ELSE IF e.npix # <<256, 256>> THEN "reject:web_tile_shape" ELSE "ok"
 Verdict(e) == IF e.outcome # "ok" THEN "reject:raised_" \o e.outcome
-              ELSE CASE e.c.op = "spec" -> SpecV(e) [] e.c.op = "bbox" -> BBoxV(e) [] e.c.op = "poly" -> PolyV(e)
+              ELSE CASE e.c.op = "spec" -> SpecV(e) [] e.c.op = "bbox" -> BBoxV(e) [] e.c.op = "poly" -> PolyV(e) [] e.c.op = "mpoly" -> MPolyV(e)
                      [] e.c.op = "sample" -> SampleV(e) [] e.c.op = "web" -> WebV(e)
 VARIABLE l
 Init == l = 1
